@@ -147,7 +147,7 @@ def worker_main(argv):
         oracle.shard(ctx)
         from . import gen
         if gen.LONG[0]:
-            ctx.stratum('sentence of 120..300 tokens', gen.LONG[0])
+            ctx.stratum('sentence of 120..220 tokens', gen.LONG[0])
         if gen.LOOKALIKE[0]:
             ctx.stratum('token that resembles punctuation but is none',
                         gen.LOOKALIKE[0])
@@ -267,9 +267,9 @@ def run_check(prop, tier, seed):
         inconclusive.append('only %d judged calls inside sequences of other '
                             'transformations (< %d)' % (seen, least))
     least = getattr(oracle, 'LONG_SENTENCES', 0)
-    if m['strata'].get('sentence of 120..300 tokens', 0) < least:
-        inconclusive.append('only %d sentences of 120..300 tokens (< %d)'
-                            % (m['strata'].get('sentence of 120..300 tokens',
+    if m['strata'].get('sentence of 120..220 tokens', 0) < least:
+        inconclusive.append('only %d sentences of 120..220 tokens (< %d)'
+                            % (m['strata'].get('sentence of 120..220 tokens',
                                                0), least))
     if distinct < mins.get('distinct', 2):
         inconclusive.append('only %d distinct non-trivial cases (< %d)'
